@@ -56,8 +56,10 @@ def build(p: Dict[str, Any]) -> Dict[str, Any]:
     }
     root: Dict[str, Any] = {
         # lib/imp.yaml is reached twice, through differently spelled paths (a diamond): it must be read once
-        "imports": ["lib/imp.yaml", "lib/extra.yaml", "lib/zeta/indep.yaml", "alpha.yaml"],
-        "constants": {"K2": "K * 2", "BIG": "K * 1000 + 7", "HALF": "K / 2", "INV": "1 / K", "SPAN": "(K2 + 1) / 2"},
+        # ... and once more, in the middle of the list, spelled differently: the imports after it must still resolve
+        "imports": ["lib/imp.yaml", "lib/extra.yaml", "./lib/imp.yaml", "lib/zeta/indep.yaml", "lib/../lib/extra.yaml", "alpha.yaml"],
+        "constants": {"K2": "K * 2", "BIG": "K * 1000 + 7", "HALF": "K / 2", "INV": "1 / K", "SPAN": "(K2 + 1) / 2",
+                      "CONSTANT_WITH_A_NAME_THAT_GOES_PAST_COLUMN_FORTY_EIGHT": 77},
         "string_constants": {"GREETING": "hello world"},
         "aliases": {"A1": p["n4"], "A2": "A1"},
         "host_ids": {"MYHOST": 10},
@@ -67,6 +69,7 @@ def build(p: Dict[str, Any]) -> Dict[str, Any]:
             "SIG": {"id": 1000, "fields": None},
             "MSG_A": {"id": 1001, "fields": {"c": "char", "d": "A2", "e": arr(p["n1"], "K2"), "o": "MID", "s": "char[16]", "u": arr(p["n2"], 3)}},
             "MSG_B": {"id": 1002, "fields": "MSG_A"},
+            "SIGNAL_WITH_A_NAME_THAT_GOES_PAST_COLUMN_FORTY_EIGHT": {"id": 1040, "fields": None},
             "_RESERVED_": {"id": [1003, '"1005 - 1007"'], "fields": None},
         },
     }
@@ -83,6 +86,9 @@ def build(p: Dict[str, Any]) -> Dict[str, Any]:
     elif v == "message_in_message":
         # the container has the SMALLER id: definition order, not id order, is what the outputs must follow
         root["message_defs"]["MSG_V"] = {"id": 900, "fields": {"inner": "MSG_A", "tail": "int32"}}
+    elif v == "message_array":           # an array whose elements are messages (the README's person: PERSON_MESSAGE[32])
+        root["message_defs"]["MSG_V"] = {"id": 1020, "fields": {"people": "MSG_A[3]", "n": "int32"}}
+        root["message_defs"]["MSG_W"] = {"id": 1021, "fields": "MSG_V"}
     elif v == "alias_array":
         root["message_defs"]["MSG_V"] = {"id": 1020, "fields": {"q": "A2[4]", "r": "A1"}}
     elif v == "struct_array_of_alias_struct":
